@@ -198,3 +198,8 @@ def rename_genes(model: "Model", rename_dict: Dict[str, str]) -> None:
         if context:
             context(partial(model.genes.add, i))
             context(partial(setattr, i, "_model", model))
+        # a gene merged into another one leaves its groups as well
+        for group in model.get_associated_groups(i):
+            group.remove_members(i)
+            if context:
+                context(partial(group.add_members, [i]))
